@@ -206,6 +206,11 @@ class FSPack(Spec):
         return {'self': h.self, 't': VOpaque(z3.Const(fresh_name('t'), Obj), 'float'),
                 'referencesf': c.fresh_opaque('referencesf'), 'gc': NONE}
 
+    def requires(self, c, E):
+        h = ghost_of(c, E['self'])
+        return [('the-packing-thread-holds-neither-lock', z3.And(c.obj(h.lock).f['held'] == 0,
+                                                                 c.obj(h.commit_lock).f['held'] == 0))]
+
     def hooks(self, c):
         hk = {}
         timestamp.install(hk)
